@@ -36,17 +36,18 @@ where
 
       source.inner_subscribe(sctl.new_observer(
         move |_, x| {
-          {
+          // no lock is held while calling downstream (a callback may re-enter)
+          let out = {
             let mut r = result_next.write().unwrap();
-            if let Some(xx) = &*r {
-              *r = Some(f.call((xx.clone(), x)));
+            let v = if let Some(xx) = &*r {
+              f.call((xx.clone(), x))
             } else {
-              *r = Some(x);
-            }
-          }
-          if let Some(x) = &*result_next.read().unwrap() {
-            sctl_next.sink_next(x.clone());
-          }
+              x
+            };
+            *r = Some(v.clone());
+            v
+          };
+          sctl_next.sink_next(out);
         },
         move |_, e| {
           sctl_error.sink_error(e);
